@@ -278,6 +278,96 @@ def direct_expectations(prog, houses):
     return out
 
 
+def do_io_expectations(prog, houses):
+    """[(line no, field, verdict text | None)] for the io share of every `do ... per <field> <plain relative word>`
+    without its own via clause. Documented resolution (Act.resolvePath): the share lives under the inodes in effect -
+    the via inodes of the frame and its over frames and of the framer, and for an auxiliary clone those inherited from
+    its main frame, that frame's over frames and the main framer, and so on upwards; only when NO inode is in effect
+    at all it lives under the default framer.<framer>.frame.<frame>.actor.<actor>. So with at least one inode in
+    effect, all of them plain words (`w`, `w.`, `.top.w`, `me.w`), the resolved path contains no framer / frame /
+    actor name at all, and with none it starts with the names of exactly its own framer, frame and actor."""
+    from ioflo.base import framing
+    from vp.flo import dump
+    names = prog["names"]
+    out = []
+    everyone = {}
+    for h in houses:
+        for t in h.taskers:
+            if isinstance(t, framing.Framer):
+                everyone[t.name] = t
+        for t in list(getattr(h, "names", {}).get("tasker", {}).values()):
+            if isinstance(t, framing.Framer):
+                everyone.setdefault(t.name, t)
+
+    def plain(inode):
+        segs = [x for x in (inode or "").rstrip(".").split(".")]
+        if segs and segs[0] == "me":
+            segs = segs[1:]
+        # at least one real word (a bare `me` / `main` / `mine` inode contributes no node of its own: left out)
+        return bool([x for x in segs if x]) and all(x not in ("framer", "frame", "actor", "me", "main", "mine") for x in segs)
+
+    cur_frame = None
+    for line_index, (ind, toks) in enumerate(prog["lines"]):
+        if toks[0] == "frame":
+            cur_frame = toks[1].format(**names)
+            continue
+        if toks[0] != "do" or "via" in toks or "per" not in toks or cur_frame is None:
+            continue
+        k = toks.index("per")
+        field, word = toks[k + 1], toks[k + 2]
+        if word not in metagen.ADDR_SHARE_WORDS:
+            continue
+        for t in everyone.values():
+            frame = t.frameNames.get(cur_frame)
+            if frame is None:
+                continue
+            act = None
+            for lst in dump.ACT_LISTS:
+                for a in getattr(frame, lst):
+                    if a.count == line_index + 2 and isinstance(a.parms, dict) and field in a.parms:
+                        act = a
+            if act is None or getattr(t, "schedule", None) is None:
+                continue
+            share = act.parms.get(field)
+            got = getattr(share, "name", None)
+            if not isinstance(got, str):
+                continue
+            if getattr(t, "original", True) and t.name in [names[f] for f, m in zip(prog["framers"], prog["moot"]) if m]:
+                continue      # the never run moot original itself
+            inodes = []
+            fr, F = frame, t
+            while F is not None:
+                f2 = fr
+                while f2 is not None:
+                    inodes.append(f2.inode)
+                    f2 = f2.over
+                inodes.append(F.inode)
+                fr = getattr(F, "main", None)
+                F = fr.framer if fr is not None else None
+            used = [i for i in inodes if i]
+            if not all(plain(i) for i in used):
+                continue
+            segs = got.split(".")
+            verdict = None
+            if used:
+                if segs[0] == "framer":
+                    verdict = ("resolved to .%s although the plain via inode(s) %r are in effect: the io share must live under them and "
+                               "not depend on any framer / frame / actor name" % (got, used))
+            else:
+                if segs[:2] != ["framer", t.name] or segs[2:4] != ["frame", cur_frame] or segs[4:5] != ["actor"]:
+                    verdict = ("resolved to .%s with no via inode in effect: expected the default .framer.%s.frame.%s.actor.<actor>.%s"
+                               % (got, t.name, cur_frame, word))
+            out.append((line_index + 1, field, t.name, verdict, "inherited" if (used and not t.inode and not any(
+                x.inode for x in _chain(frame))) else ("own" if used else "default")))
+    return out
+
+
+def _chain(frame):
+    while frame is not None:
+        yield frame
+        frame = frame.over
+
+
 # ------------------------------------------------------------------------------ one program
 def run_case(prog):
     """-> (failures, info)"""
@@ -292,6 +382,12 @@ def run_case(prog):
             if exp != got:
                 fails.append(("direct:" + form, "line %d `%s`: %s of the act resolved to %s, documented resolution is %s"
                               % (lineno, text.split("\n")[lineno - 1].strip(), key, got, exp)))
+        for lineno, field, fname, verdict, how in do_io_expectations(prog, houses):
+            info["direct"] += 1
+            info.setdefault("doio", set()).add(how)
+            if verdict:
+                fails.append(("direct:do-io-share:" + how, "line %d `%s` in framer %s: io share %s %s"
+                              % (lineno, text.split("\n")[lineno - 1].strip(), fname, field, verdict)))
     houses = None
     for kind, sym in prog["entities"]:
         new = metagen.FRESH
@@ -353,6 +449,7 @@ def execute(prog):
     classes += ["form:" + f for f in sorted(set(prog.get("forms", [])))]
     classes += ["ref-changing-renamings"] * info["ref_changing"]
     classes += ["direct-checks"] * min(info["direct"], 50)
+    classes += ["do-io-share:" + h for h in sorted(info.get("doio", ()))]
     text = metagen.render_templates(prog["lines"], prog["names"])
     sample = {"text": text[:700], "renamings": info["renamings"], "ref_changing": info["ref_changing"]}
     return Outcome(fails, nontrivial=info["ref_changing"] >= 1, classes=classes, key=text, sample=sample)
